@@ -1,7 +1,13 @@
 use super::segment_batch::SegmentBatch;
+use crate::engine::core::read::cache::global_calendar_cache::{
+    GlobalCalendarCache, GlobalFieldCalendarCache,
+};
+use crate::engine::core::read::cache::global_temporal_index_cache::{
+    GlobalFieldTemporalIndexCache, GlobalTemporalIndexCache,
+};
 use crate::engine::core::read::cache::{
-    GlobalColumnBlockCache, GlobalColumnHandleCache, GlobalIndexCatalogCache, GlobalZoneIndexCache,
-    GlobalZoneSurfCache,
+    GlobalColumnBlockCache, GlobalColumnHandleCache, GlobalEnumCache, GlobalIndexCatalogCache,
+    GlobalZoneIndexCache, GlobalZoneSurfCache, GlobalZoneXorFilterCache,
 };
 use crate::engine::core::segment::segment_id::SegmentId;
 use crate::engine::core::{SegmentEntry, SegmentIndex};
@@ -326,6 +332,14 @@ impl CompactionHandover {
             self.zone_index_cache.invalidate_segment(label);
             self.index_catalog_cache.invalidate_segment(label);
             self.column_block_cache.invalidate_segment(label);
+            // The remaining process-wide caches are keyed by files of the segment directory as
+            // well; a later segment may be created under the same label.
+            GlobalZoneXorFilterCache::instance().invalidate_segment(label);
+            GlobalEnumCache::instance().invalidate_segment(label);
+            GlobalCalendarCache::instance().invalidate_segment(label);
+            GlobalFieldCalendarCache::instance().invalidate_segment(label);
+            GlobalTemporalIndexCache::instance().invalidate_segment(label);
+            GlobalFieldTemporalIndexCache::instance().invalidate_segment(label);
             debug!(
                 target: "compaction_handover::cache",
                 shard = self.shard_id,
